@@ -15,15 +15,22 @@ from common import *
 IMPORTS = "WaitNotify.Model"
 
 CAUSES = ["stop", "drain", "kill", "killhandler", "err", "panic", "stopkill",
-          "prefail", "prepanic", "postfail", "pserr", "pspanic", "prekill", "postkill"]
+          "prefail", "prepanic", "postfail", "pserr", "pspanic", "prekill", "postkill",
+          "abort0", "abortidle", "aborthandler", "abortps", "abortstart"]
 MCAUSE = {"stop": "CStop", "drain": "CStop", "pserr": "CStop", "pspanic": "CStop",
           "kill": "CKill", "killhandler": "CKill", "err": "CErr", "panic": "CErr",
           "stopkill": "CStopKill", "prefail": "CPreStartFail", "prepanic": "CPreStartFail",
-          "postfail": "CPostStartFail", "prekill": "CPreStartKill", "postkill": "CPostStartKill"}
-STOPLIKE = ("stop", "pserr", "pspanic", "stopkill")
-PARKABLE = ("stop", "drain", "pserr", "pspanic", "stopkill")
+          "postfail": "CPostStartFail", "prekill": "CPreStartKill", "postkill": "CPostStartKill",
+          # cancelled tasks: the loop task aborted before its first poll / idle / inside a handler / inside
+          # post_stop; the start task (spawn_instant) aborted during pre_start = the guard without an event
+          "abort0": "CAbort", "abortidle": "CAbort", "aborthandler": "CAbort", "abortps": "CAbortPs",
+          "abortstart": "CPreStartFail"}
+NOSUP = ("prefail", "prepanic", "prekill", "abortstart")     # spawn_instant: no supervisor
+KILLPARK = ("stopkill", "abortps")                           # post_stop parked, ended by kill / abort
+STOPLIKE = ("stop", "pserr", "pspanic", "stopkill", "abortps")
+PARKABLE = ("stop", "drain", "pserr", "pspanic", "stopkill", "abortps")
 KILLLIKE = ("kill", "killhandler", "prekill", "postkill")
-STARTING = ("prefail", "prepanic", "postfail", "prekill", "postkill")
+STARTING = ("prefail", "prepanic", "postfail", "prekill", "postkill", "abort0", "abortstart")
 
 
 # ------------------------------------------------------------------------------------------
@@ -132,7 +139,7 @@ def translate(scn):
             mops += ["OpOpen 1%N", "OpSettle"]
             released()
         elif k == "k":
-            hops.append("k")
+            hops.append("ab" if (cause == "abortps" and op[1] == "release") else "k")
             if op[1] == "release":
                 mops.append("OpOpen 2%N")
                 released()
@@ -162,8 +169,8 @@ def translate(scn):
 
 def gen_scenario(rng):
     cause = rng.choice(CAUSES)
-    sup = cause not in ("prefail", "prepanic", "prekill") and rng.random() < 0.65
-    park = cause in PARKABLE and (cause == "stopkill" or rng.random() < 0.7)
+    sup = cause not in NOSUP and rng.random() < 0.65
+    park = cause in PARKABLE and (cause in KILLPARK or rng.random() < 0.7)
     ops = []
     join_used = [False]
 
@@ -186,7 +193,7 @@ def gen_scenario(rng):
     # before the exit
     for _ in range(rng.choice([0, 1, 1, 2, 3])):
         ops.append(waiter("before"))
-        if rng.random() < 0.15:
+        if rng.random() < 0.15 and cause != "abort0":     # (nothing may yield before the abort)
             ops.append(["a"])
     # the cause, delivered by a plain call or by a *_and_wait waiter
     if cause in STOPLIKE and rng.random() < 0.4:
@@ -211,7 +218,9 @@ def gen_scenario(rng):
             else:
                 ops.append(waiter("during"))
         if not incomplete:
-            if cause == "stopkill":
+            if cause == "abortps":
+                ops.append(["k", "release"])
+            elif cause == "stopkill":
                 if rng.random() < 0.5:
                     ops.append(["w", "killw", rng.choice(["none", "long"]), "release"])
                 else:
@@ -233,6 +242,8 @@ def gen_scenario(rng):
             else:
                 ops.append(waiter("after"))
     kids = [rng.choice(["run", "busy", "drain", "drain", "stopping"]) for _ in range(rng.choice([1, 1, 2, 3]))]
+    if cause == "abort0":
+        kids = ["run"] * len(kids)      # setting up the other kinds needs a yield
     return {"cause": cause, "sup": sup, "kids": kids, "park": park, "ops": ops}
 
 
@@ -241,8 +252,8 @@ def exhaustive_small():
     handle in {absent, before, during, after}"""
     out = []
     for cause in CAUSES:
-        for sup in ((False,) if cause in ("prefail", "prepanic", "prekill") else (False, True)):
-            parks = (True,) if cause == "stopkill" else ((False, True) if cause in PARKABLE else (False,))
+        for sup in ((False,) if cause in NOSUP else (False, True)):
+            parks = (True,) if cause in KILLPARK else ((False, True) if cause in PARKABLE else (False,))
             for park in parks:
                 phases = ["-", "b", "a"] + (["d"] if park else [])
                 for p0, p1, pj in itertools.product(phases, phases, phases):
@@ -257,7 +268,7 @@ def exhaustive_small():
                         return r
                     ops = ws("b") + [["x"]]
                     if park:
-                        ops += ws("d") + ([["k", "release"]] if cause == "stopkill" else [["g"]])
+                        ops += ws("d") + ([["k", "release"]] if cause in KILLPARK else [["g"]])
                     ops += ws("a")
                     out.append({"cause": cause, "sup": sup, "kids": 1, "park": park, "ops": ops})
     return out
@@ -367,10 +378,12 @@ def exhaustive_kids():
     one task waiter and one inline waiter registered before the exit, one wait after"""
     out = []
     for cause in CAUSES:
-        for sup in ((False,) if cause in ("prefail", "prepanic", "prekill") else (False, True)):
+        for sup in ((False,) if cause in NOSUP else (False, True)):
             for kid in ("run", "busy", "drain", "stopping"):
                 ops = [["w", "wait", "none", ""], ["w", "inline", "none", ""], ["x"]]
-                park = cause == "stopkill"
+                if cause == "abort0" and kid != "run":
+                    continue
+                park = cause in KILLPARK
                 if park:
                     ops.append(["k", "release"])
                 ops.append(["w", "wait", "none", ""])
@@ -551,7 +564,7 @@ def run(chk):
                             "cause-driven scenarios with wait/stop_and_wait/kill_and_wait/drain_and_wait/join waiters, "
                             "timeouts on the virtual clock, late and repeated calls. non-trivial = at least one waiter; "
                             "distinct = distinct scenario descriptions")
-    chk.coverage["exhaustive_part"] = "14 causes x sup x park x {absent,before,during,after}^3 placements"
+    chk.coverage["exhaustive_part"] = "19 causes x sup x park x {absent,before,during,after}^3 placements"
     return chk.finish(trusted_base=TRUSTED)
 
 
